@@ -334,9 +334,11 @@ pub(crate) enum AlterActionInstr {
 impl AlterActionInstr {
     pub fn try_inverse_with(&self, schema: &Schema) -> SchemaResult<Self> {
         match self {
-            Self::AddColumn { column, .. } => {
-                let idx = schema.bind_column(column.name())?;
-                Ok(Self::DropColumn { column_idx: idx })
+            Self::AddColumn { .. } => {
+                // `schema` is the schema before the change: the new column will take the next index
+                Ok(Self::DropColumn {
+                    column_idx: schema.num_columns(),
+                })
             }
             Self::DropColumn { column_idx, .. } => {
                 let column = schema
